@@ -31,8 +31,8 @@ MARK = "Zq7MARK"
 def gen_cases(tier, seed):
     cases = []
     for sr, sa, sc, mode in itertools.product((0, 1), (0, 1), (0, 1), ("assertion", "pefim-advice", "pefim-advice+assertion")):
-        for layout in ("one-key", "second-key-matches"):
-            if tier == "quick" and layout == "second-key-matches" and (sc or mode != "assertion"):
+        for layout in ("one-key", "second-key-matches", "md-useless-key-beside-signing-key", "md-single-useless-key"):
+            if tier == "quick" and layout != "one-key" and (sc or mode != "assertion") and not (layout.startswith("md-useless-key") and not sc and sr):
                 continue
             cid = "conf-r%d-a%d-sc%d-%s-%s" % (sr, sa, sc, mode, layout)
             cases.append({"id": cid, "sig": ["conf", sr, sa, sc, mode, layout], "kind": "conf", "sr": sr, "sa": sa, "sc": sc, "mode": mode, "layout": layout})
@@ -53,13 +53,23 @@ def setup_worker(ctx):
     ctx.fedcache = fed.Cache()
 
 
+# how the SP's encryption-capable key is published: hand-written metadata whose KeyDescriptor has no use attribute (valid for signing and
+# encryption alike) - what the SP 'has' is the same encryption certificate k02
+MD_KEY_LAYOUTS = {"md-useless-key-beside-signing-key": [("signing", 1), (None, 2)], "md-single-useless-key": [(None, 2)]}
+
+
 def _pair(ctx, wrs, was, layout, unsol=0):
     def build():
-        enc = (2,) if layout == "one-key" else (10, 2)
-        spc = fed.sp_conf(want_response_signed=bool(wrs), want_assertions_signed=bool(was), enc_keys=enc, allow_unsolicited=bool(unsol))
-        sp_md = fed.sp_conf(want_response_signed=bool(wrs), want_assertions_signed=bool(was), enc_keys=(2,))
+        from vlib import mdgen
+        enc = (10, 2) if layout == "second-key-matches" else (2,)
+        key_i = 2 if layout == "md-single-useless-key" else 1
+        spc = fed.sp_conf(want_response_signed=bool(wrs), want_assertions_signed=bool(was), enc_keys=enc, allow_unsolicited=bool(unsol), key_i=key_i)
+        sp_md = fed.metadata_of(fed.sp_conf(want_response_signed=bool(wrs), want_assertions_signed=bool(was), enc_keys=(2,)))
+        if layout in MD_KEY_LAYOUTS:
+            sp_md = mdgen.entity({"eid": fed.SP_EID, "sp": {"keys": MD_KEY_LAYOUTS[layout], "want_assertions_signed": bool(was),
+                                                           "acs": [("urn:oasis:names:tc:SAML:2.0:bindings:HTTP-POST", fed.ACS_POST, 1, True)]}})
         idc = fed.idp_conf()
-        return fed.make_sp(spc, [fed.metadata_of(idc)]), fed.make_idp(idc, [fed.metadata_of(sp_md)])
+        return fed.make_sp(spc, [fed.metadata_of(idc)]), fed.make_idp(idc, [sp_md])
     return ctx.fedcache.get("pair", [wrs, was, layout, unsol], build)
 
 
